@@ -67,6 +67,10 @@ def spec(tier: str, seed: int, which: str = "C18") -> Spec:
                 fams.append(Family(f"detached-twin-K2-{op}-forest{f}", H.make_harness(2, which, [op], twin_later, forest=f), per_path_timeout=3.0, variables="selectors: receiver / argument per step"))
                 if tier != "quick":
                     fams.append(Family(f"detached-twin-K3-{op}-forest{f}", H.make_harness(3, which, [op], twin_later + ["detach", "detach_self"], forest=f), per_path_timeout=3.0, variables="selectors: receiver / argument per step"))
+    if which == "C18":
+        # content-equal twins of inner nodes (in one tree and across roots): upward queries follow objects, not content
+        for op in ("replace-property", "replace-noop", "duplicate", "wrap-tuple", "detach", "transform-inc", "replace_with-None", "new-leaf-1", "wrap-pair"):
+            fams.append(Family(f"twin-branches-K2-first-{op}", H.make_harness(2, which, [op], forest=H.TWIN_FOREST), per_path_timeout=3.0, variables=var + "; forest with content-equal branches"))
     # nodes that are falsy in a boolean context: histories of 2 on their own forest
     for op in ("duplicate-detached", "detach", "detach_self", "replace_with-None", "new-leaf-1", "replace-noop") + (("wrap-detached-tuple",) if which == "C19" else ()):
         fams.append(Family(f"falsy-nodes-K2-first-{op}", H.make_harness(2, which, [op], forest=H.FALSY_FOREST), per_path_timeout=3.0, variables=var + "; forest with falsy node classes"))
